@@ -291,6 +291,10 @@ def gen_case(ctx, thorough, force=None):
         kind, big, with_classes, lumped = "uniform", True, True, False
     if force == "numeric-2d":
         kind, big, dim, lumped = "dimwise", False, 2, False
+    if force == "extreme":
+        # extreme scales: lambda 1e8..1e12 (solution ~ b/lambda) and/or every sample within 2^-40 of the domain boundary (all hats
+        # almost zero): the unnormalised mean of the positive parts is tiny but NOT zero, so the surpluses must be normalised
+        kind, big, with_classes = r.choice(["uniform", "uniform", "dimwise"]), False, r.random() < 0.15
     if kind == "uniform":
         if big:
             lv = r.choice([[8], [4, 4], [4, 4], [2, 3, 4], [5, 3], [3, 5], [3, 3, 3]] + ([] if force else [[2, 2, 4]]))
@@ -298,7 +302,7 @@ def gen_case(ctx, thorough, force=None):
         else:
             while True:
                 lv = [r.randint(1, 4) for _ in range(dim)]
-                if math.prod(2 ** l - 1 for l in lv) <= (64 if not thorough else 120):
+                if math.prod(2 ** l - 1 for l in lv) <= ((64 if not thorough else 120) if force != "extreme" else 21):
                     break
         stripes = uniform_stripes(lv)
     else:
@@ -310,19 +314,26 @@ def gen_case(ctx, thorough, force=None):
             else:
                 stripes = [gen_stripe(r, 19, 6, lo=17), gen_stripe(r, 19, 6, lo=17)]
         else:
-            cap = {1: 14, 2: 8, 3: 5}[dim]
+            cap = {1: 14, 2: 8, 3: 5}[dim] if force != "extreme" else {1: 9, 2: 5, 3: 4}[dim]
             stripes = [gen_stripe(r, cap, 5) for _ in range(dim)]
             if force == "numeric-2d":
                 # 2 x 2 .. 3 x 3 interior nodes: every kind of neighbour pair (axis-parallel, diagonal, anti-diagonal) occurs
                 stripes = [gen_stripe(r, 5, 4, lo=4), gen_stripe(r, 5, 4, lo=4)]
     M = r.choice([1, 2, 3, 4, 5, 8, 8, 13, 16, 16, 32]) if force is None else r.choice([8, 13, 16, 32])
     data = gen_data(r, dim, stripes, M, res=r.choice([16, 64, 128]))
+    if force == "extreme":
+        mode = r.choice(["lambda", "lambda", "boundary", "both"])
+        if mode in ("lambda", "both"):
+            lam = F(10) ** r.choice([8, 9, 10, 12])
+        if mode in ("boundary", "both"):
+            eps = F(1, 2 ** r.choice([36, 40, 44]))
+            data = [[r.choice([eps, 1 - eps]) for _ in range(dim)] for _ in range(M)]
     classes = [r.choice([-1, 1]) for _ in range(M)] if with_classes else None
     numeric = (kind == "dimwise" and not big and r.random() < (0.15 if not thorough else 0.2)
                and math.prod(len(s) - 2 for s in stripes) <= (9 if dim == 1 else 4) and dim <= 2) or force == "numeric-2d"
     return {"kind": kind, "dim": dim, "lv": lv, "stripes": [[frac_str(c) for c in s] for s in stripes],
             "lam": frac_str(lam), "lumped": lumped, "classes": classes, "numeric": numeric,
-            "reuse": bool(kind == "dimwise" and not numeric and r.random() < 0.5),
+            "reuse": bool(kind == "dimwise" and not numeric and r.random() < 0.5), "extreme": force == "extreme",
             "data": [[frac_str(c) for c in x] for x in data], "big": big, "bigR": bool(big and (thorough or r.random() < 0.35))}
 
 
@@ -585,13 +596,26 @@ def check_matrix(ck, R, Rm, G, lam, case, what, tags):
             ck.viol("matrix-positive-definite", dict(tags), case, {"cholesky": "failed"})
 
 
-def check_normalised(ck, alphas, weights, case, tags):
-    """clause: (quadrature-)weighted mean of the positive parts is 1, unless it is 0"""
+def check_normalised(ck, alphas, weights, case, tags, exact=None):
+    """clause: (quadrature-)weighted mean of the positive parts is 1, unless it is 0.  `exact` = (classes?, exact rational
+    solution of the system): whether the mean is non-zero is then judged on the EXACT value -- however small it is (it only has
+    to be well above the rounding level relative to the surpluses), the returned surpluses must be normalised"""
     a = [float(v) for v in alphas]
     w = [float(v) for v in weights]
     m = sum(max(v, 0.0) * wi for v, wi in zip(a, w)) / sum(w)
-    if not (abs(m - 1.0) <= 1e-9 or m == 0.0):
-        ck.viol("surpluses-normalised", dict(tags), case, {"weighted_mean_of_positive_parts": m})
+    must = False
+    if exact is not None:
+        cls, raw = exact
+        sw = sum(weights)
+        a1 = list(raw)
+        if cls:
+            mean = sum(x * wi for x, wi in zip(a1, weights)) / sw
+            a1 = [x - mean for x in a1]
+        integ = sum(max(x, 0) * wi for x, wi in zip(a1, weights)) / sw
+        must = integ > 0 and integ >= F(1, 10 ** 6) * max(abs(x) for x in a1)
+        ck.ctx.count("normalisation_exact_mean_%s" % ("tiny" if must and integ < F(1, 10 ** 8) else ("nonzero" if must else "zero_or_rounding")))
+    if not (abs(m - 1.0) <= 1e-9 or (m == 0.0 and not must)):
+        ck.viol("surpluses-normalised", dict(tags, exact_mean_nonzero=must), case, {"weighted_mean_of_positive_parts": m})
     ck.ctx.count("normalisation_mean_%s" % ("one" if m != 0.0 else "zero"))
 
 
@@ -677,7 +701,7 @@ def _run_case(ck, case):
                 ck.corr("solve_density_estimation", case, np.asarray(al).tolist(), [float(v) for v in mn])
             if not vec_near(al, normalise_ref(classes is not None, raw, [1] * N), 1e-8):
                 ck.viol("surpluses-solve-the-system", tags, case, {"impl": np.asarray(al).tolist()[:8]})
-            check_normalised(ck, al, [1] * N, case, tags)
+            check_normalised(ck, al, [1] * N, case, tags, exact=(classes is not None, raw))
             ctx.count("solve_uniform")
     else:
         numeric = bool(case.get("numeric"))
@@ -791,7 +815,7 @@ def _run_case(ck, case):
             if not vec_near(al, normalise_ref(classes is not None, raw, wref), 1e-8):
                 ck.viol("surpluses-solve-the-system", tags, case, {"impl": np.asarray(al).tolist()[:8],
                         "reference": [float(v) for v in normalise_ref(classes is not None, raw, wref)][:8]})
-            check_normalised(ck, al, wref, case, tags)
+            check_normalised(ck, al, wref, case, tags, exact=(classes is not None, raw))
             ctx.count("solve_dimwise")
 
 
@@ -908,7 +932,9 @@ def run(ctx):
             case = combi_case(ctx, drv, thorough)
             ok = run_combi(ctx, drv, case)
         else:
-            case = gen_case(ctx, thorough, force="uniform-big-classes" if k % 20 == 3 else ("numeric-2d" if k % 25 == 8 else None))
+            case = gen_case(ctx, thorough, force="uniform-big-classes" if k % 20 == 3 else ("numeric-2d" if k % 25 == 8 else ("extreme" if k % 11 == 5 else None)))
+            if case.get("extreme"):
+                ctx.count("extreme_scale_cases")
             ok = run_case(ctx, drv, case)
             if case["kind"] == "uniform" and case["big"] and case["classes"] is not None:
                 ctx.count("uniform_ge_200_with_classes")
